@@ -46,6 +46,13 @@ def _exec(args):
         rng.shuffle(band)
         out.append(x_store.observe(fx, np, t, ('trunc', o), band, rng.choice(['list', 'tuple', 'nested-list', 'nested-tuple', 'list-1xk', 'list-3d']),
                                    rng.choice(['ctor', 'set_val']), ['C18'], True, raw=True))
+        # ... and containers whose items ALL lie in [2^63, 2^64) (NumPy picks uint64 for them)
+        top = [(1 << 63), (1 << 64) - 1, (1 << 63) + 5, rng.randint(1 << 63, (1 << 64) - 1)][:rng.choice([1, 2, 4])]
+        out.append(x_store.observe(fx, np, t, ('trunc', o), top, rng.choice(['list', 'tuple', 'list-1xk', 'nested-list']) if len(top) != 1 else rng.choice(['list', 'tuple', 'list-1xk']),
+                                   rng.choice(['ctor', 'set_val']), ['C18'], True, raw=True))
+        if f <= 8:
+            out.append(x_store.observe(fx, np, t, ('trunc', o), [F(b) for b in top], 'pyint-' + (rng.choice(['list', 'tuple', 'list-1xk']) if len(top) != 1 else 'list'),
+                                       rng.choice(['ctor', 'call', 'set_val']), ['C18'], True))
         if f <= 8:
             out.append(x_store.observe(fx, np, t, ('trunc', o), [F(b) for b in band], 'pyint-' + rng.choice(['list', 'nested-list', 'nested-tuple', 'list-1xk']),
                                        rng.choice(['ctor', 'call', 'set_val']), ['C18'], True))
